@@ -31,7 +31,9 @@ func (q *DedupQueue) GetChunk(id ChunkID) (*Chunk, error) {
 	req, isInFlight := q.getChunkQueue.loadOrStore(id)
 
 	if isInFlight { // The request is already in-flight, wait for it to come back
+		verifYieldID("dedup.get.join", id)
 		data, err := req.wait()
+		verifYieldID("dedup.get.woke", id)
 		switch b := data.(type) {
 		case nil:
 			return nil, err
@@ -43,15 +45,19 @@ func (q *DedupQueue) GetChunk(id ChunkID) (*Chunk, error) {
 	}
 
 	// This request is the first one for this chunk, execute as normal
+	verifYieldID("dedup.get.lead", id)
 	b, err := q.store.GetChunk(id)
+	verifYieldID("dedup.get.upret", id)
 
 	// Signal to any others that wait for us that we're done, they'll use our data
 	// and don't need to hit the store themselves
 	req.markDone(b, err)
+	verifYieldID("dedup.get.marked", id)
 
 	// We're done, drop the request from the queue to avoid keeping all the chunk data
 	// in memory after the request is done
 	q.getChunkQueue.delete(id)
+	verifYieldID("dedup.get.deleted", id)
 
 	return b, err
 }
